@@ -1,9 +1,9 @@
 (** C02 – the context reported after any call is well-formed.
     Property theorems only; each closed by a lemma proved elsewhere. *)
-From Coq Require Import List ZArith NArith Bool.
+From Coq Require Import List ZArith NArith Bool Lia.
 From Coq.Strings Require Import Byte.
 From RimeV Require Import Base.Bytes Eng.Keys Eng.Cand Eng.Segm Eng.Ctx Eng.Engine Eng.Procs Eng.Api Eng.Oracle
-     Eng.Spec Eng.InvProofs Gen.Keymaps Gen.EngFacts.
+     Eng.Spec Eng.WfView Eng.WfProofs Eng.InvProofs Gen.Keymaps Gen.EngFacts.
 Import ListNotations.
 
 (** Source fact (gen/eng_facts.py, re-read from src/rime/context.cc on every
@@ -13,9 +13,69 @@ Theorem C02_delete_guard_in_source : delete_candidate_guard = DeleteChecked.
 Proof. reflexivity. Qed.
 Print Assumptions C02_delete_guard_in_source.
 
-(** The faithful model of the UNCHECKED code refutes the property. *)
+(** After EVERY finite sequence of API calls with arbitrary arguments (keys
+    with any code and mask, set_input, set_caret_pos beyond the end,
+    select/highlight/delete by any index, paging, options, commit, clear, the
+    getters), for any speller/menu configuration with page_size >= 1, either
+    editor, and ANY translator whose candidate lists are shorter than
+    2^31 - page_size, every observation is well-formed ([Spec.wf_viewb]):
+    caret <= |input|; not composing => no input, no preedit, no menu;
+    0 <= sel_start <= sel_end <= length and cursor <= length of the preedit;
+    a reported menu has 0 <= highlighted < candidates on the page <= page_size,
+    page_no >= 0 and page_no * page_size + highlighted = the selected index.
+    Needs the source fact above ([cf_del_checked cfg = true]). *)
+Theorem C02_wf_reported :
+  forall (cfg : config) (translate : bytes -> seginfo -> list cand),
+    (1 <= cf_page_size cfg)%Z ->
+    (forall i s, (Z.of_nat (length (translate i s)) + cf_page_size cfg < 2147483648)%Z) ->
+    cf_del_checked cfg = true ->
+    forall ops, forallb wf_obsb (snd (run cfg translate ops)) = true.
+Proof. exact wf_reported. Qed.
+Print Assumptions C02_wf_reported.
+
+(** Composition::GetPreedit yields ordered ranges for ANY composition, input,
+    caret and prompt (the preedit clause needs no invariant at all). *)
+Theorem C02_preedit_ranges :
+  forall sg full_input caret_pos caret, wf_preeditb (comp_preedit sg full_input caret_pos caret) = true.
+Proof. exact comp_preedit_wf. Qed.
+Print Assumptions C02_preedit_ranges.
+
+(** The hypotheses are met by the synthetic schemas of the correspondence
+    check as they are in the current source (both editors, Debug and NDEBUG). *)
+Theorem C02_wf_reported_synth :
+  forall fluid dlog ops, forallb wf_obsb (snd (run (synth_cfg fluid dlog) oracle_translate ops)) = true.
+Proof.
+  intros fluid dlog. apply wf_reported.
+  - cbn. lia.
+  - intros i s. pose proof (oracle_translate_length i s). cbn. lia.
+  - unfold synth_cfg, synth_cfg_with, delete_checked_in_source. cbn. now rewrite C02_delete_guard_in_source.
+Qed.
+Print Assumptions C02_wf_reported_synth.
+
+(** The faithful model of the UNCHECKED DeleteCandidate (the code before the
+    repair) refutes the property: two candidates on the page,
+    delete_candidate(2) -> highlighted = num_candidates = 2. *)
 Theorem C02_wf_reported_refuted_unchecked :
   exists ops, existsb (fun o => negb (wf_obsb o))
                       (snd (run (synth_cfg_with false false false) oracle_translate ops)) = true.
 Proof. exact wf_reported_refuted_unchecked. Qed.
 Print Assumptions C02_wf_reported_refuted_unchecked.
+
+(** Non-vacuity: a history that reaches a second page, a partial selection and
+    a multi-segment preedit reports regular (not crashed) well-formed states. *)
+Definition c02_example_ops : list op :=
+  [OpKey 97 0; OpKey 98 0; OpKey 99 0; OpKey 100 0; OpChangePage false; OpHighlight 7; OpSelect 11;
+   OpKey 101 0; OpDelete 1; OpDelete 99; OpSetCaret 2; OpSetOption opt_soft_cursor true; OpKey 65361 0; OpCommit].
+Theorem C02_example :
+  forallb (fun o => match o with Obs _ v => wf_viewb v | ObsCrash _ => false end)
+          (snd (run (synth_cfg false true) oracle_translate c02_example_ops)) = true /\
+  existsb (fun o => match o with
+                    | Obs _ v => match v_menu v, v_preedit v with
+                                 | Some m, Some p => (0 <? mo_page_no m)%Z && (0 <? pe_sel_start p)%nat
+                                 | _, _ => false
+                                 end
+                    | ObsCrash _ => false
+                    end)
+          (snd (run (synth_cfg false true) oracle_translate c02_example_ops)) = true.
+Proof. split; vm_compute; reflexivity. Qed.
+Print Assumptions C02_example.
